@@ -566,6 +566,10 @@ acquire_stop(struct AcquireRuntime* self_)
         // already been released, flush it. This takes at most 2 iterations.
         if (video->monitor.reader.id) {
             size_t nbytes;
+            // Release a region the client still holds; mapping a mapped
+            // reader would mark it as failed for good.
+            channel_read_unmap(
+              &video->sink.in, &video->monitor.reader, (size_t)-1);
             do {
                 struct slice slice =
                   channel_read_map(&video->sink.in, &video->monitor.reader);
